@@ -28,7 +28,7 @@ TECHNIQUE = "deterministic network simulation with in-memory TLS: verification-s
 LEVEL_TEXT = (
     "Seeded cells of cert_reqs x assert_hostname x assert_fingerprint x server_hostname x ssl_context kind x CA source x issuer x SAN shape x requested host form x TLS backend (stdlib ssl, pyOpenSSL), directly and "
     "through http/https proxy tunnels (TLS-in-TLS), with real handshakes in memory and optional faults at handshake I/O steps; in every must-reject cell the origin-side observer "
-    "must have seen zero plaintext bytes, the client must raise SSLError and the socket must be closed; unvalidated connections must warn and never report is_verified. Sampling."
+    "must have seen zero plaintext bytes, the client must raise SSLError and the socket must be closed; unvalidated connections must warn and never report is_verified. The machine's own trust store is modelled as the *other* CA, and a fifth of the cells first make a plain-http request through the same manager. Race stratum (simsched): two threads open TLS connections sharing one caller-supplied SSLContext while one peer presents a certificate for another name -- every single pre-emption of sampled scenarios plus seeded schedules. Sampling."
 )
 LEVEL_NOTE = "trusted: the three-valued reference (must-reject / must-accept / either) in this module; stdlib backend: client TLS runs through urllib3's SSLTransport instead of ssl.SSLSocket; pyOpenSSL backend: urllib3.contrib.pyopenssl (PyOpenSSLContext, WrappedSocket, its own hostname matching) is real, OpenSSL.SSL.Connection runs in memory-BIO mode pumped over the SimSocket (simkit/ossl.py)"
 N = {"quick": 14000, "thorough": 200000}
@@ -40,8 +40,8 @@ ASSUMPTIONS = [
     "pyOpenSSL backend: direct and http-proxy-tunnel paths only (that backend offers no TLS-in-TLS); ca_cert_data with pyOpenSSL 26.4 fails closed before the handshake and is only counted",
 ]
 REQUIRED_PROBES = {
-    "quick": ["must_reject_held", "accepted", "unverified_warned", "reject:chain", "reject:hostname", "reject:fingerprint", "path:tunnel", "path:tunnel_tlsproxy", "handshake_fault", "either_cell", "ip_host", "wildcard", "pyopenssl_handshake_in_memory", "prelude_http_pool_built"],
-    "thorough": ["must_reject_held", "accepted", "unverified_warned", "reject:chain", "reject:hostname", "reject:fingerprint", "path:tunnel", "path:tunnel_tlsproxy", "handshake_fault", "either_cell", "ip_host", "wildcard", "pyopenssl_handshake_in_memory", "prelude_http_pool_built"],
+    "quick": ["must_reject_held", "accepted", "unverified_warned", "reject:chain", "reject:hostname", "reject:fingerprint", "path:tunnel", "path:tunnel_tlsproxy", "handshake_fault", "either_cell", "ip_host", "wildcard", "pyopenssl_handshake_in_memory", "prelude_http_pool_built", "race_runs", "race_preempted", "race_mismatch_rejected"],
+    "thorough": ["must_reject_held", "accepted", "unverified_warned", "reject:chain", "reject:hostname", "reject:fingerprint", "path:tunnel", "path:tunnel_tlsproxy", "handshake_fault", "either_cell", "ip_host", "wildcard", "pyopenssl_handshake_in_memory", "prelude_http_pool_built", "race_runs", "race_preempted", "race_mismatch_rejected"],
 }
 
 # requested host -> (host string in the URL, names the certificate shape must cover)
@@ -128,8 +128,61 @@ def gen(rng):
     return sc
 
 
+def warmup():
+    """The race stratum pre-empts at every line of the TLS set-up code."""
+    import urllib3.connection
+    import urllib3.connectionpool
+    import urllib3.util.ssl_
+    import urllib3.util.ssltransport
+
+    from simkit import sched as S
+
+    w = W.World({})
+    w.default_listener = H.tls_origin_factory()
+    with w:
+        p = H.u3().HTTPSConnectionPool("origin.test", 443, ca_certs=T.CA_GOOD, retries=False, timeout=3.0)
+        p.request("GET", "/warm").data
+        p.close()
+    S.instrument([urllib3.connection, urllib3.util.ssl_, urllib3.util.ssltransport, urllib3.connectionpool])
+
+
+RACE_MODES = ["assert_hostname", "mixed_pin", "plain"]
+
+
+def gen_race(rng):
+    """Two threads open TLS connections that share one caller-supplied SSLContext; one of the two peers presents a certificate
+    (trusted issuer) for another name."""
+    mode = rng.choice(RACE_MODES)
+    certs = rng.choice([["other", "origin"], ["origin", "other"], ["other", "other"]])
+    c = rng.random()
+    if c < 0.5:
+        sched = {"strategy": "uniform", "p": rng.choice([0.01, 0.03, 0.1]), "seed": rng.randrange(1 << 30)}
+    else:
+        sched = {"strategy": "pct", "d": rng.choice([1, 2, 3]), "steps": rng.choice([200, 500, 1200]), "seed": rng.randrange(1 << 30)}
+    return {"property": ID, "kind": "race", "mode": mode, "certs": certs, "schedule": sched}
+
+
 def cases(seed, k, tier):
-    yield gen(rng_for(seed, ID, k))
+    rng = rng_for(seed, ID, k)
+    if k % 250 == 7:
+        # systematic: every single pre-emption (sampled beyond a cap) of the sequential run of one race scenario
+        base = gen_race(rng)
+        base["schedule"] = {"decisions": []}
+        yield base
+        steps_total = _run(base).steps
+        cap = 120 if tier == "quick" else 600
+        steps = list(range(1, steps_total + 1))
+        if len(steps) > cap:
+            steps = sorted(rng.sample(steps, cap))
+        for st in steps:
+            sc = copy.deepcopy(base)
+            sc["schedule"] = {"decisions": [[st, "T1"]]}
+            yield sc
+        return
+    if k % 50 == 8:
+        yield gen_race(rng)
+        return
+    yield gen(rng)
 
 
 def reference(cell) -> tuple[str, list[str]]:
@@ -249,11 +302,98 @@ class _backend:
 
 
 def run(sc: dict) -> Result:
+    if sc.get("kind") == "race":
+        return _run(sc)
     with _backend(sc["cell"].get("backend", "ssl")):
         return _run(sc)
 
 
+def run_race(sc: dict) -> Result:
+    from urllib3.exceptions import SSLError
+    from urllib3.util.ssl_ import create_urllib3_context
+
+    from simkit import sched as S
+
+    res = Result()
+    urllib3 = H.u3()
+    w = W.World({"certs": list(sc["certs"])})
+    peers = []
+    fac = H.tls_origin_factory()
+
+    def listener(world, chan):
+        tp = fac(world, chan)
+        peers.append(tp)
+        return tp
+
+    w.default_listener = listener
+    mode = sc["mode"]
+    with H.RunEnv(), H.quiet_warnings(), w:
+        sched = S.Scheduler(w, sc["schedule"])
+        ctx = create_urllib3_context()
+        ctx.load_verify_locations(T.CA_GOOD)  # check_hostname stays True: the caller's own context, shared by every connection
+        common = dict(ssl_context=ctx, retries=False, timeout=5.0, maxsize=2)
+        if mode == "assert_hostname":
+            pa = pb = urllib3.HTTPSConnectionPool("origin.test", 443, assert_hostname="origin.test", **common)
+        elif mode == "mixed_pin":
+            pa = urllib3.HTTPSConnectionPool("origin.test", 443, **common)
+            pb = urllib3.HTTPSConnectionPool("origin.test", 443, assert_fingerprint=fp("origin", "sha256"), **common)
+        else:
+            pa = pb = urllib3.HTTPSConnectionPool("origin.test", 443, **common)
+
+        def make(pool, path):
+            def body():
+                try:
+                    r = pool.request("GET", path)
+                    return ("ok", r.status)
+                except (S.SimDeadlock, S.TaskAbort, W.StepLimit, W.SimHang):
+                    raise
+                except Exception as e:
+                    H.strip_tb(e)
+                    return ("exc", e)
+
+            return body
+
+        sched.spawn("T0", make(pa, "/t0"))
+        sched.spawn("T1", make(pb, "/t1"))
+        sched.run()
+        res.probes["race_runs"] += 1
+        if sched.preemptions:
+            res.probes["race_preempted"] += 1
+        if sched.verdict == "deadlock":
+            res.bad("deadlock", "TLS set-up of two threads blocked for ever")
+        for t in sched.tasks:
+            if t.error is not None and not isinstance(t.error, (S.SimDeadlock, S.TaskAbort)):
+                res.bad(f"task_crashed:{type(t.error).__name__}", f"{t.name}: {t.error!r:.160}")
+        for tp in peers:
+            mismatching = tp.cert == "other"
+            if mismatching and len(tp.plain_in) > 0:
+                # a pin for the *other* certificate does not excuse it: in mixed_pin the pinned pool pins 'origin'
+                res.bad("request_sent_unverified", f"{len(tp.plain_in)} plaintext bytes reached a peer whose certificate names other.test (shared SSLContext, mode {mode}, schedule {sc['schedule']})")
+            elif mismatching:
+                res.probes["race_mismatch_rejected"] += 1
+            elif len(tp.plain_in) > 0:
+                res.probes["race_good_peer_served"] += 1
+        outs = [t.result for t in sched.tasks]
+        for o in outs:
+            if o and o[0] == "exc" and not isinstance(H.root_reason(o[1]), SSLError) and not H.is_urllib3_error(o[1]):
+                res.bad(f"wrong_error:{type(o[1]).__name__}", repr(o[1])[:160])
+        res.info["switch_log"] = list(sched.switch_log)
+        res.faults["preemptions"] += sched.preemptions
+        res.digest = hashlib.sha256(repr((sc["mode"], sc["certs"], [(o[0], type(o[1]).__name__ if o[0] == "exc" else o[1]) for o in outs if o], [len(tp.plain_in) > 0 for tp in peers], sched.signature())).encode()).hexdigest()[:16]
+        res.trace = hash((mode, tuple(sc["certs"]), sched.signature()))
+        res.nontrivial = sched.preemptions > 0
+        res.sim_s = w.now - W.VClock.START
+        res.steps = sched.steps
+        for t in sched.tasks:
+            t.result = t.error = t.fn = None
+        pa.close()
+        pb.close()
+    return res
+
+
 def _run(sc: dict) -> Result:
+    if sc.get("kind") == "race":
+        return run_race(sc)
     from urllib3.exceptions import InsecureRequestWarning, MaxRetryError, ProxyError, SSLError
 
     res = Result()
@@ -404,6 +544,20 @@ def _run(sc: dict) -> Result:
 
 
 def shrinks(sc):
+    if sc.get("kind") == "race":
+        sch = sc["schedule"]
+        if "decisions" not in sch:
+            r = run(sc)
+            c = copy.deepcopy(sc)
+            c["schedule"] = {"decisions": [list(x) for x in r.info.get("switch_log", [])]}
+            yield c
+        else:
+            dec = sch["decisions"]
+            for i in range(len(dec)):
+                c = copy.deepcopy(sc)
+                c["schedule"] = {"decisions": dec[:i] + dec[i + 1 :]}
+                yield c
+        return
     if sc.get("step_faults"):
         c = copy.deepcopy(sc)
         c["step_faults"] = []
